@@ -3916,9 +3916,15 @@ search_state_new(void) {
 
 static void
 search_postfix_clear(struct evdns_base *base) {
+	/* Only the list of domains is cleared: "options ndots:N" must survive
+	 * a later "search"/"domain" line (resolv.conf(5) does not order them). */
+	const int ndots = base->global_search_state ?
+	    base->global_search_state->ndots : 1;
 	search_state_decref(base->global_search_state);
 
 	base->global_search_state = search_state_new();
+	if (base->global_search_state)
+		base->global_search_state->ndots = ndots;
 }
 
 /* exported function */
